@@ -488,6 +488,17 @@ def gen_trees(seed, count, maxdepth):
     stackish += [("seq", [("push", ("str", b"a")), ("choice", [("str", b"x"), ("pop",), ("str", b"b")]), ("match_peek",)]),
                  ("seq", [("push", ("str", b"a")), ("opt", ("seq", [("str", b"-"), ("opt", ("pop",))])), ("match_peek",)]),
                  ("seq", [("push", ("str", b"a")), ("rep", ("choice", [("pop",), ("str", b"b")])), ("opt", ("match_peek",))])]
+    # atomicity: the same atomicity requested again inside (nothing to toggle), absorbed by ? | * !; and token generation switched
+    # back on (NonAtomic rule) inside an atomic rule whose enclosing sequence then fails and is absorbed by a choice / repetition
+    for k in (0, 1, 2):
+        stackish += [("atomic", k, ("seq", [("str", b"a"), ("opt", ("atomic", k, ("str", b"b")))])),
+                     ("atomic", k, ("choice", [("atomic", k, ("str", b"a")), ("str", b"b")])),
+                     ("rule", 1, ("atomic", k, ("seq", [("rep", ("charby", "digit")), ("opt", ("rule", 2, ("atomic", k, ("seq", [("str", b"."), ("charby", "digit")]))))]))),
+                     ("atomic", k, ("seq", [("look", False, ("atomic", k, ("str", b"b"))), ("charby", "any")]))]
+    for inner in (2, 1):
+        stackish += [("rule", 3, ("atomic", 0, ("choice", [("seq", [("atomic", inner, ("rule", 1, ("charby", "alpha"))), ("str", b"!")]), ("seq", [("atomic", inner, ("rule", 2, ("charby", "alpha"))), ("str", b"?")])]))),
+                     ("rule", 3, ("atomic", 0, ("seq", [("rep", ("seq", [("atomic", inner, ("rule", 1, ("charby", "alpha"))), ("str", b"/")])), ("atomic", inner, ("rule", 2, ("charby", "alpha")))]))),
+                     ("atomic", 0, ("seq", [("opt", ("seq", [("atomic", inner, ("rule", 1, ("str", b"a"))), ("str", b"b")])), ("charby", "any")]))]
     stackish += [("pop",), ("peek",),
                  ("rep", ("rule", 1, ("str", b"a"))), ("opt", ("rule", 1, ("seq", [("str", b"a"), ("str", b"b")]))),
                  ("look", False, ("rule", 1, ("str", b"a"))), ("rule", 1, ("seq", [("str", b"a"), ("rep", ("rule", 2, ("range", 0x61, 0x7a)))])),
